@@ -127,7 +127,8 @@ class C09(Property):
         "probe.short-reads", "probe.non-ascii-label", "probe.dump-text-stream",
         "probe.dump-binary-stream", "probe.dump-path", "probe.dump-enospc",
         "probe.real-file-object",
-        "probe.pre-advanced-text-with-late-binary"]
+        "probe.pre-advanced-text-with-late-binary",
+        "probe.byte-order-mark"]
 
     # ---- one load through one entry point
     def load_entry(self, case, entry, knobs, st):
@@ -399,6 +400,11 @@ class C09(Property):
         if not tail and not sep:
             pass
         label = label + sep
+        if rng.random() < 0.05:
+            # a file an editor saved with a UTF-8 byte order mark: every
+            # way of handing it over must make the same thing of it
+            label = "\ufeff" + label
+            out.inc("probe.byte-order-mark")
         # the premise of "nothing after END matters" is an END statement:
         # if the label, as lexed, never delivers one (an unterminated
         # comment or quote in a damaged or extended-vocabulary label
